@@ -418,7 +418,30 @@ func c19ResultSet(t *rapid.T) {
 		fns = append(fns, qsql.Precision(precision))
 	}
 	var qf qframe.QFrame
-	if perr := hx.Safely(func() { qf = qframe.ReadSQL(tx, fns...) }); perr != nil {
+	// now and then through ReadSQLWithArgs: the query arguments must reach the driver unchanged
+	var qargs []interface{}
+	if rapid.IntRange(0, 2).Draw(t, "withargs") == 0 {
+		for i, n := 0, rapid.IntRange(0, 3).Draw(t, "nqargs"); i < n; i++ {
+			switch rapid.IntRange(0, 2).Draw(t, "qargkind") {
+			case 0:
+				qargs = append(qargs, int64(hx.GenInt(t)))
+			case 1:
+				qargs = append(qargs, hx.GenStr(t, false))
+			default:
+				qargs = append(qargs, rapid.Bool().Draw(t, "qargb"))
+			}
+		}
+		if qargs == nil {
+			qargs = []interface{}{}
+		}
+	}
+	if perr := hx.Safely(func() {
+		if qargs != nil {
+			qf = qframe.ReadSQLWithArgs(tx, qargs, fns...)
+		} else {
+			qf = qframe.ReadSQL(tx, fns...)
+		}
+	}); perr != nil {
 		t.Fatalf("ReadSQL panicked: %v\n%s", perr, desc())
 	}
 	if qf.Err != nil {
@@ -426,6 +449,9 @@ func c19ResultSet(t *rapid.T) {
 	}
 	if len(m.Queries) != 1 || m.Queries[0].Query != "select * from t" {
 		t.Fatalf("ReadSQL ran %v, want exactly the configured query\n%s", m.Queries, desc())
+	}
+	if fmt.Sprint(m.Queries[0].Args) != fmt.Sprint(append([]interface{}{}, qargs...)) && !(len(m.Queries[0].Args) == 0 && len(qargs) == 0) {
+		t.Fatalf("query arguments %v reached the driver as %v\n%s", qargs, m.Queries[0].Args, desc())
 	}
 	got, err := hx.Observe(qf)
 	if err != nil {
